@@ -181,8 +181,8 @@ impl Property for C05 {
     }
     fn budget(&self, tier: Tier) -> Budget {
         match tier {
-            Tier::Quick => Budget { cases: 120_000, min_len: 8, max_len: 160 },
-            Tier::Thorough => Budget { cases: 6_000_000, min_len: 8, max_len: 240 },
+            Tier::Quick => Budget { cases: 600000, min_len: 8, max_len: 160 },
+            Tier::Thorough => Budget { cases: 12000000, min_len: 8, max_len: 240 },
         }
     }
 
